@@ -1,7 +1,8 @@
 #!/bin/bash
 # tools/coverage.sh [tier] — which statements of the interpreter the correspondence streams execute.
-# Builds the harness with `go build -cover -coverpkg=…/Zn/...`, swaps it in for one pass over all twenty checks, and prints the
-# per-function coverage of the modelled packages (go tool covdata).  A measurement for widening the generators; not a check.
+# Runs all twenty checks from a scratch copy of /verif whose harness is built with `go build -cover -coverpkg=…/Zn/...`
+# (ZN_COVER=1, see tools/build.sh) and prints the per-function coverage (go tool covdata) into coverage-<tier>.txt.
+# A measurement for widening the generators; not a check, not registered in MANIFEST.json.
 set -e
 export GOFLAGS=-mod=mod GOPROXY=off GOSUMDB=off GOTOOLCHAIN=local
 V=$(cd "$(dirname "$0")/.." && pwd)
@@ -9,23 +10,11 @@ TIER=${1:-quick}
 W=$(mktemp -d /tmp/zncov.XXXXXX)
 rsync -a --exclude .git $V/ $W/verif/
 cd $W/verif
-ZN_RACE=0 tools/build.sh >/dev/null
-H=.build/harness-src
-TAGS=verif,znserver,pmhooks
-sed -i 's/^go 1.18/go 1.21/' $H/go.mod   # binaries built with -cover write no data when the main module says go < 1.20
-(cd $H && go build -cover -coverpkg=github.com/DemoHn/Zn/... -tags $TAGS -o ../znharness.cov .)
-mv .build/znharness .build/znharness.plain
-cat > .build/znharness <<EOS
-#!/bin/bash
-exec $W/verif/.build/znharness.cov "\$@"
-EOS
-chmod +x .build/znharness
-# keep build.sh from rebuilding over the wrapper
-sed -i 's#^(cd \$H && go build -tags \$TAGS -o \$B/znharness .)#true#' tools/build.sh
-export GOCOVERDIR=$W/cov
+rm -f .build/znharness
+export ZN_COVER=1 ZN_RACE=0 GOCOVERDIR=$W/cov
 mkdir -p $GOCOVERDIR
 for i in 01 02 03 04 05 06 07 08 09 10 11 12 13 14 15 16 17 18 19 20; do
-  ZN_RACE=0 ./check C$i --tier $TIER 2>&1 | grep -E "VIOLATION|tier=" || true
+  ./check C$i --tier $TIER 2>&1 | grep -E "VIOLATION|tier=" || true
 done
 mkdir -p $W/merged && go tool covdata merge -i=$GOCOVERDIR -o=$W/merged
 go tool covdata textfmt -i=$W/merged -o=$W/cover.txt
